@@ -186,6 +186,28 @@ pub fn run(em: &mut Emit, thorough: bool, seed: u64) {
             emit_program(em, p, &sp, "nt=1;kind=c10-long");
         }
     }
+    // lengths around the sizes at which buffers, chunked loops or small-size shortcuts change
+    for &n in &[31usize, 32, 33, 63, 64, 65, 100, 127, 128, 129, 255, 256, 257, 1000] {
+        for variant in 0..3u64 {
+            let l: Vec<Value> = (0..n)
+                .map(|i| Value::Int(match variant { 0 => (i % 4) as i64, 1 => if i + 1 == n { 3 } else { 0 }, _ => if i == n / 2 { 3 } else { 1 } }))
+                .collect();
+            let sp = spec(vec![("l".into(), Value::List(Arc::new(l)))]);
+            for (p, _) in &progs {
+                emit_program(em, p, &sp, "nt=1;kind=c10-threshold");
+            }
+        }
+    }
+    for &n in &[9usize, 16, 17, 33, 64] {
+        let mut m = HashMap::new();
+        for i in 0..n {
+            m.insert(Key::Int(i as i64 % 50), Value::Int((i % 4) as i64));
+        }
+        let sp = spec(vec![("l".into(), Value::Map(Map { map: Arc::new(m) }))]);
+        for (p, _) in &progs {
+            emit_program(em, p, &sp, "nt=1;kind=c10-threshold-map");
+        }
+    }
     // non-list, non-map ranges
     let sp = spec(vec![("l".into(), Value::Int(1))]);
     for (p, _) in &progs {
